@@ -88,7 +88,8 @@ check("C02", "exploration",
 check("C07", "exploration",
       [dict(world="heap", mode=7, variants=V_TREES, quick=60000, thorough=4000000),
        dict(world="heap", mode=107, variants={"rel": 0.7, "dbg": 0.3}, quick=40, thorough=2000),
-       dict(world="heap", mode=108, variants={"rel": 1.0}, quick=2, thorough=16, min_mem_gib=8)],
+       dict(world="heap", mode=108, variants={"rel": 1.0}, quick=2, thorough=16, min_mem_gib=8),
+       dict(world="heap", mode=109, variants={"rel": 1.0}, quick=2, thorough=6, min_mem_gib=8)],      # heaps of 2^24 .. 2^26 elements: pop and push around every 2^k
       RULE_SEQ, ["src/heap.c", "src/common.c", "src/bintree.c", "include/cstl/heap.h"],
       required_probes=["push_to_2^k", "pop_from_2^k", "pop_empty", "swap", "heap_reached_256", "huge_heap", "huge_heap_2^16"])
 
@@ -144,7 +145,8 @@ check("C19", "exploration",
                    "the three-buckets-per-operation clause is checked through a call-count bound (8 + 6*(longest chain+1)), not by identifying source buckets"])
 check("C17", "fault_enumeration",
       [dict(world="hash", mode=17, variants={"rel": 0.5, "asan": 0.5}, quick=60000, thorough=1300000),
-       dict(world="hash", mode=117, variants={"rel": 1.0}, quick=256, thorough=4096)],
+       dict(world="hash", mode=117, variants={"rel": 1.0}, quick=256, thorough=4096),
+       dict(world="hash", mode=104, variants={"rel": 0.5, "asan": 0.5}, quick=8000, thorough=400000)],      # a caller's function taking turns with the built-in ones passed by name, bad values armed
       RULE_HASH + "; in this mode a fault 'the caller's hash function returns m, m+1 or SIZE_MAX on its j-th call within this operation' rides on a fraction of the operations",
       ["src/hash.c", "include/cstl/hash.h"], stubs=HASH_STUBS,
       required_probes=["c17_bad_value_consumed", "c17_bad_at_call_1", "c17_bad_at_call_2", "c17_bad_at_call_3plus", "c17_range_samples", "c17_range_scan_keys"] + ["c17_scan_slices_%d-%d" % (s, s + 31) for s in range(0, 256, 32)],
